@@ -169,7 +169,7 @@ let () =
       let line = input_line stdin in
       if mode = "spec" then spec_line line else if mode = "print" then print_line line else
       match Stdlib.String.split_on_char ' ' line with
-      | [id; text; cols; hidden; pk; partials; fks] ->
+      | [id; text; cols; hidden; pk; partials; fks; xidx] ->
         let r = recover (hb text) (hlist cols) (hlist hidden) (hlist pk) (hlist partials)
                   (Stdlib.List.map parse_fk (split ';' fks)) in
         (match r with
@@ -180,7 +180,14 @@ let () =
            let preds = join (Stdlib.List.map hex x.r_preds) in
            let fks = join (Stdlib.List.map hex x.r_fks) in
            let checks = join (Stdlib.List.map (fun (n, e) -> (match n with Some w -> hex w | None -> "-") ^ ":" ^ hex e) x.r_checks) in
-           Printf.printf "%s gens=%s auto=%s preds=%s fks=%s checks=%s\n" id (or_dash gens) auto (or_dash preds) (or_dash fks) (or_dash checks))
+           let xparts = Stdlib.String.concat ";" (Stdlib.List.map (fun t ->
+               match Stdlib.String.split_on_char '|' t with
+               | [stmt; flags] ->
+                 let n = Stdlib.String.length flags / 2 in
+                 let parts = Stdlib.List.init n (fun i -> (flags.[2*i] = 'x', flags.[2*i+1] = '1')) in
+                 join (Stdlib.List.map hex (idx_exprs expr_last_index (hb stmt) parts))
+               | _ -> failwith "xidx") (split ';' xidx)) in
+           Printf.printf "%s gens=%s auto=%s preds=%s fks=%s checks=%s xparts=%s\n" id (or_dash gens) auto (or_dash preds) (or_dash fks) (or_dash checks) (or_dash xparts))
       | _ -> ()
     done
   with End_of_file -> ()
